@@ -364,6 +364,12 @@ impl Session {
         true
     }
 
+    /// Switch the lock hooks between tracing only and scheduling (at a quiescent point).
+    pub fn set_scheduled(&mut self, on: bool) {
+        hook::install(true, on);
+        self.scheduled = on;
+    }
+
     /// Leave scheduled mode: let everything run freely to completion (virtual time untouched).
     pub async fn free_run(&mut self) {
         hook::release_all();
